@@ -1,8 +1,8 @@
 ----------------------------- MODULE MC_Overlap -----------------------------
 (* Model checking and test-vector generation for C08.  One module, four      *)
 (* sub-models distinguished by the variable `mode` and explored in ONE TLC     *)
-(* run (Init is the disjunction of the four Inits; every invariant is guarded   *)
-(* by its mode):                                                               *)
+(* run (a single seed state fans out into per-shape buckets and then into the    *)
+(* layouts of each sub-model; every invariant is guarded by its mode):           *)
 (*  small   every layout of rank <= MaxRank, sizes 0..MaxSize, strides        *)
 (*          0..MaxStride: TLC checks  ~MayOverlapImpl => Injective  (exact     *)
 (*          arithmetic) and that the int and Word transcriptions agree; every  *)
@@ -25,10 +25,11 @@ VARIABLES lay, depth, mode
 vars == <<lay, depth, mode>>
 
 \* ------------------------------------------------------------------ small
-InitSmall ==
-  /\ depth = 0 /\ mode = "small"
-  /\ \E r \in 0..MaxRank : \E sh \in [1..r -> 0..MaxSize], st \in [1..r -> 0..MaxStride] :
-       lay = [shape |-> sh, strides |-> st]
+\* (TLC evaluates initial states and their invariants in ONE thread; the spaces are therefore
+\* reached in two steps from a single seed state - seed -> one bucket per shape -> the layouts
+\* of that shape - so that all workers share the work.)
+ShapesSmall == UNION {[1..r -> 0..MaxSize] : r \in 0..MaxRank}
+StridesSmall(r) == [1..r -> 0..MaxStride]
 
 Sound == ~MayOverlapImpl(lay.shape, lay.strides) => Injective(lay.shape, lay.strides)
 \* the three transcriptions (int, Word exact, Word wrapping) agree where no wrap can occur
@@ -44,10 +45,8 @@ EmitSmall == PrintT(<<"REPLAY", ToJson([class |-> "small", shape |-> lay.shape, 
 
 \* ------------------------------------------------------------------- wrap
 M == 2 ^ K
-InitWrap ==
-  /\ depth = 0 /\ mode = "wrap"
-  /\ \E r \in 1..MaxRank : \E sh \in [1..r -> 0..MaxSize], st \in [1..r -> 0..(M - 1)] :
-       lay = [shape |-> sh, strides |-> st]
+ShapesWrap == UNION {[1..r -> 0..MaxSize] : r \in 1..MaxRank}
+StridesWrap(r) == [1..r -> 0..(M - 1)]
 WrapAccepts == ~MayOverlapImplM(lay.shape, lay.strides, M, TRUE)
 ExactAccepts == ~MayOverlapImplM(lay.shape, lay.strides, 0, TRUE)
 Candidate == WrapAccepts /\ ~Injective(lay.shape, lay.strides)
@@ -71,9 +70,9 @@ WrapAgree == MayOverlapImplW(WSeq(lay.shape), ScaledW, TRUE) = ~WrapAccepts
 
 \* ---------------------------------------------------------------- derived
 Norm(l) == [l EXCEPT !.base = 0]
-InitDerived ==
-  /\ depth = 0 /\ mode = "derived"
-  /\ \E r \in 0..MaxRank : \E sh \in [1..r -> 0..MaxSize] : lay = ContigL(sh)
+SeedDerived ==
+  /\ depth' = 0 /\ mode' = "derived"
+  /\ \E r \in 0..MaxRank : \E sh \in [1..r -> 0..MaxSize] : lay' = ContigL(sh)
 
 SliceOneDim(l) ==
   UNION {
@@ -115,20 +114,33 @@ HugeSeeds == {[shape |-> <<FromNat(2), P63, FromNat(2)>>, strides |-> <<WZero, F
               [shape |-> <<FromNat(3), P32, P32>>, strides |-> <<WZero, P32, WOne>>],
               [shape |-> <<FromNat(3), FromNat(5)>>, strides |-> <<P63, P63>>]}
 \* quick: rank <= 2 over the Q sets + seeds; thorough: rank <= 2 over the T sets, rank 3 over the Q sets + seeds
-InitHuge ==
-  /\ depth = 0 /\ mode = "huge"
-  /\ \/ lay \in HugeSeeds
-     \/ \E r \in 1..2 : \E sh \in [1..r -> (IF Tier = "quick" THEN HugeSizesQ ELSE HugeSizesT)],
-                              st \in [1..r -> (IF Tier = "quick" THEN HugeStridesQ ELSE HugeStridesT)] :
-          lay = [shape |-> sh, strides |-> st]
-     \/ /\ Tier # "quick"
-        /\ \E sh \in [1..3 -> HugeSizesQ], st \in [1..3 -> HugeStridesQ] : lay = [shape |-> sh, strides |-> st]
+HugeShapes ==
+  UNION {[1..r -> (IF Tier = "quick" THEN HugeSizesQ ELSE HugeSizesT)] : r \in 1..2}
+  \cup (IF Tier = "quick" THEN {} ELSE [1..3 -> HugeSizesQ])
+HugeStridesFor(sh) ==
+  IF Len(sh) = 3 THEN [1..3 -> HugeStridesQ]
+  ELSE [1..Len(sh) -> (IF Tier = "quick" THEN HugeStridesQ ELSE HugeStridesT)]
 EmitHuge == PrintT(<<"REPLAY", ToJson([class |-> "huge", shapeW |-> lay.shape, stridesW |-> lay.strides])>>)
 ThirdOk == WMul(Third, FromNat(3)) = WAdd(W2p64, FromNat(2))
 
 \* -------------------------------------------------------- the combined model
-Init == InitSmall \/ InitWrap \/ InitDerived \/ InitHuge
-Next == NextDerived
+Init == mode = "seed" /\ depth = 0 /\ lay = <<>>
+NextSeed ==
+  /\ mode = "seed"
+  /\ \/ SeedDerived
+     \/ /\ mode' = "huge" /\ depth' = 0 /\ lay' \in HugeSeeds
+     \/ /\ mode' = "bucket" /\ depth' = 0
+        /\ \/ \E sh \in ShapesSmall : lay' = [target |-> "small", shape |-> sh]
+           \/ \E sh \in ShapesWrap : lay' = [target |-> "wrap", shape |-> sh]
+           \/ \E sh \in HugeShapes : lay' = [target |-> "huge", shape |-> sh]
+NextBucket ==
+  /\ mode = "bucket" /\ mode' = lay.target /\ UNCHANGED depth
+  /\ LET r == Len(lay.shape) IN
+     \E st \in (CASE lay.target = "small" -> StridesSmall(r)
+                  [] lay.target = "wrap" -> StridesWrap(r)
+                  [] lay.target = "huge" -> HugeStridesFor(lay.shape)) :
+        lay' = [shape |-> lay.shape, strides |-> st]
+Next == NextSeed \/ NextBucket \/ NextDerived
 LowRank == Len(lay.shape) <= AgreeRank
 InvSmall == mode = "small" => (Sound /\ (LowRank => AgreeW))
 InvWrap == mode = "wrap" => (SoundExactScaled /\ (LowRank => (InjWScaledOk /\ InjWRefOk /\ WrapAgree)))
@@ -138,4 +150,5 @@ Emit == CASE mode = "small" -> EmitSmall
           [] mode = "wrap" -> EmitWrap
           [] mode = "derived" -> EmitDerived
           [] mode = "huge" -> EmitHuge
+          [] mode \in {"seed", "bucket"} -> TRUE
 =============================================================================
